@@ -7,7 +7,14 @@ os.environ["PYOAK_VERIF_NO_NORMALIZE"] = "1"
 from pyoakverif.srcmodel import Repo
 r = Repo()
 out = {}
+import ast
 for m in r.mods.values():
     out[m.name] = sorted({f.qualname for f in r.functions([m])})
+    names = set()
+    for st in m.tree.body:
+        for n in ast.walk(st) if not isinstance(st, (ast.FunctionDef, ast.AsyncFunctionDef, ast.ClassDef)) else []:
+            if isinstance(n, ast.Name) and isinstance(n.ctx, ast.Store):
+                names.add(n.id)
+    out[m.name + "#vars"] = sorted(names)
 json.dump(out, open(os.path.join(os.path.dirname(os.path.dirname(os.path.abspath(__file__))), "baseline_names.json"), "w"), indent=0)
-print(sum(len(v) for v in out.values()), "functions in", len(out), "modules")
+print(sum(len(v) for k, v in out.items() if "#" not in k), "functions,", sum(len(v) for k, v in out.items() if "#" in k), "module-level names")
